@@ -372,6 +372,17 @@ def _run_shard(args):
                 f.write(str(os.getpid()))
     except Exception:
         pass
+    pycov = None
+    if os.environ.get("VERIF_PYCOV") == "1" and _HEART.get("dir"):
+        try:      # measured line coverage of the library under test (informational)
+            os.environ.setdefault("COVERAGE_CORE", "sysmon")
+            import coverage
+            ov = os.environ.get("VERIF_OVERLAY", "")
+            pycov = coverage.Coverage(data_file=os.path.join(_HEART["dir"], "pycov.%d" % shard),
+                                      include=[os.path.join(ov, "qubovert", "*")], config_file=False)
+            pycov.start()
+        except Exception:
+            pycov = None
     try:
         mod = importlib.import_module(modname)
         rec = Recorder()
@@ -409,6 +420,12 @@ def _run_shard(args):
                 f["sub"] = sub.name
                 fail = f
                 break
+        if pycov is not None:
+            try:
+                pycov.stop()
+                pycov.save()
+            except Exception:
+                pass
         if _HEART["arr"] is not None:
             _HEART["arr"][shard] = -1.0      # finished
         return {"shard": shard, "rec": rec.dump(), "fail": _enc(fail) if fail else None,
@@ -664,6 +681,10 @@ def run_property(modname, tier, seed, nshards=None, collect=False):
         extra = mod.extra_evidence(tier, m) or {}
     if cgf_stats is not None:
         extra["coverage_guided"] = cgf_stats
+    if os.environ.get("VERIF_PYCOV") == "1":
+        pc = _combine_pycov(_HEART["dir"], prop)
+        if pc:
+            extra["python_line_coverage_of_library"] = pc
     write_evidence(mod, tier, seed, m, wall, len(fails), extra)
     if fails:
         f = _dec(fails[0]["fail"])
@@ -696,6 +717,34 @@ def cgf_budgets(mod, tier):
         if n > 0:
             out[sub.name] = n
     return out
+
+
+def _combine_pycov(d, prop):
+    """Combine the shards' coverage data; per library file: executable lines, covered lines, missing line numbers.
+    The full report is also written to .run/pycov-<ID>.json for development."""
+    try:
+        import glob
+        import coverage
+        files = glob.glob(os.path.join(d, "pycov.*"))
+        if not files:
+            return None
+        cov = coverage.Coverage(data_file=os.path.join(d, "pycov-combined"), config_file=False)
+        cov.combine(files, keep=True)
+        data = cov.get_data()
+        out = {}
+        for fn in sorted(data.measured_files()):
+            try:
+                _, stmts, _, missing, _ = cov.analysis2(fn)
+            except Exception:
+                continue
+            rel = fn.split(os.sep + "qubovert" + os.sep, 1)[-1]
+            out[rel] = {"statements": len(stmts), "covered": len(stmts) - len(missing), "missing": missing}
+        os.makedirs(os.path.join(ROOT, ".run"), exist_ok=True)
+        with open(os.path.join(ROOT, ".run", "pycov-%s.json" % prop), "w") as f:
+            json.dump(out, f)
+        return {k: {"statements": v["statements"], "covered": v["covered"]} for k, v in out.items()}
+    except Exception as e:  # informational only
+        return {"error": repr(e)}
 
 
 def _pad(m):
